@@ -93,6 +93,17 @@ def generate(seed, prop):
     pre = {"window_length_in_seconds": wl, "detrend": rng.choice(["linear", "constant"]),
            "filter": rng.choice([[None, None], [None, None], [0.2, None], [0.2, 20.0], [None, 24.0], [0.5, 40.0]]),
            "orient": rng.choice([0.0, 30.0, None, None])}     # None: leave every sensor as deployed
+    many_windows = rng.random() < 0.05
+    if many_windows:
+        # hours of data cut into short windows: hundreds of windows per file (with the figure step switched on below)
+        wl = 2.0
+        pre["window_length_in_seconds"] = wl
+        for f_ in files[:2]:
+            f_["rate"] = rng.choice([50, 100])
+            f_["n"] = int(f_["rate"] * wl * rng.randint(205, 260)) + 1
+            f_.pop("saf_rot", None)
+        for f_ in files[2:]:
+            f_["n"] = int(f_["rate"] * wl * rng.randint(3, 12)) + 1
     if rng.random() < 0.2:
         # the other preprocessing class the command line accepts (its settings file only differs in the method entry and
         # the extra steps): spectral differentiation of the whole record before it is cut into windows
@@ -106,7 +117,7 @@ def generate(seed, prop):
     nproc = rng.choice([None, 1, 2, 2, 3, 4, 6])
     argv = {"order": order, "nproc": nproc, "cpus": rng.choice([1, 2, 3, 4, 8]),
             "dfn": rng.choice(["lognormal", "normal"]), "dmc": rng.choice(["lognormal", "normal"]),
-            "no_figure": rng.random() < 0.92, "no_file": rng.random() < 0.04}
+            "no_figure": rng.random() < 0.92 and not many_windows, "no_file": rng.random() < 0.04 and not many_windows}
     sched = {"mode": rng.choice(["random", "random", "random", "fifo"]), "seed": rng.randrange(1 << 30),
              "stall_rate": rng.choice([0.0, 0.1, 0.3])}
     return {"machine": "cli", "property": prop, "run_seed": int(seed),
